@@ -437,6 +437,10 @@ func sendHelloDevice(ctx context.Context, transport Transport, c *TO2Config) (pr
 			captureErr(ctx, protocol.MessageBodyErrCode, "")
 			return protocol.Nonce{}, nil, nil, fmt.Errorf("error parsing TO2.ProveOVHdr contents: %w", err)
 		}
+		if proveOVHdr.Payload == nil {
+			captureErr(ctx, protocol.MessageBodyErrCode, "")
+			return protocol.Nonce{}, nil, nil, fmt.Errorf("TO2.ProveOVHdr is missing its payload")
+		}
 		defer clear(proveOVHdr.Payload.Val.KeyExchangeA)
 
 	case protocol.ErrorMsgType:
@@ -853,6 +857,10 @@ func proveDevice(ctx context.Context, transport Transport, proveDeviceNonce prot
 			captureErr(ctx, protocol.MessageBodyErrCode, "")
 			return protocol.Nonce{}, nil, fmt.Errorf("error parsing TO2.SetupDevice contents: %w", err)
 		}
+		if setupDevice.Payload == nil {
+			captureErr(ctx, protocol.MessageBodyErrCode, "")
+			return protocol.Nonce{}, nil, fmt.Errorf("TO2.SetupDevice is missing its payload")
+		}
 		if setupDevice.Payload.Val.NonceTO2SetupDv != setupDeviceNonce {
 			captureErr(ctx, protocol.InvalidMessageErrCode, "")
 			return protocol.Nonce{}, nil, fmt.Errorf("nonce in TO2.SetupDevice did not match nonce sent in TO2.ProveDevice")
@@ -915,6 +923,9 @@ func (s *TO2Server) setupDevice(ctx context.Context, msg io.Reader) (*cose.Sign1
 	var proof cose.Sign1Tag[cbor.RawBytes, []byte]
 	if err := cbor.NewDecoder(msg).Decode(&proof); err != nil {
 		return nil, fmt.Errorf("error decoding TO2.ProveDevice request: %w", err)
+	}
+	if proof.Payload == nil {
+		return nil, fmt.Errorf("error decoding TO2.ProveDevice request: missing EAT payload")
 	}
 	var eat eatoken
 	if err := cbor.Unmarshal([]byte(proof.Payload.Val), &eat); err != nil {
